@@ -198,6 +198,13 @@ class Oracle:
         with np.errstate(invalid="ignore"):
             err = np.abs(got - want)
         err = np.where(got == want, 0.0, err)  # equal infinities agree; a NaN on either side is a violation
+        # an infinite required value (a point of zero density: log-density -inf) must come back as that infinity, whatever the
+        # tolerance — a tolerance relative to |-inf| is infinite and would accept any finite stand-in (seeded change C08-jA:
+        # np.nan_to_num turned -inf into -1.8e308 in the array-level interface)
+        swapped = np.isinf(want) & (got != want)
+        if swapped.any():
+            tol = np.where(swapped, 0.0, np.broadcast_to(np.asarray(tol, dtype=float), err.shape))
+            err = np.where(swapped, np.inf, err)
         w = worst(err, tol)
         if w is None:
             return True
@@ -528,6 +535,20 @@ def check_flow(ctx, tie, fm, cfg, state, rng):
     O.close("FlowModel.forward_and_log_prob:z", "array-level z != model", znp, np64(zf), tm * (1 + np.abs(np64(zf))), x64)
     O.close("FlowModel.forward_and_log_prob:log_prob", "array-level log_prob != model", lpnp, np64(lpf), tm * (1 + np.abs(np64(lpf))), x64)
     O.close("FlowModel.log_prob", "array-level log_prob != model", fm.log_prob(x64), np64(lp), tm * (1 + np.abs(np64(lp))), x64)
+    if opts.get("distribution") == "uniform":
+        # points of ZERO density (latent image outside the unit box of the uniform base distribution): the model reports -inf and
+        # the array-level interface must report that very -inf
+        xfar_t = fm.numpy_array_to_tensor(centre + width * 60.0 * (1.0 + gen_points(rng, 8, d, np.zeros(d), np.ones(d)) ** 2))
+        with torch.inference_mode():
+            lp_far = m.log_prob(xfar_t)
+            _, lpf_far = m.forward_and_log_prob(xfar_t)
+        if not torch.isnan(lp_far).any():
+            xfar = np64(xfar_t)
+            O.close("FlowModel.log_prob:zero-density", "array-level log_prob != model at points outside the support",
+                    fm.log_prob(xfar), np64(lp_far), tm * (1 + np.abs(np64(lp_far))), xfar)
+            O.close("FlowModel.forward_and_log_prob:zero-density", "array-level log_prob != model at points outside the support",
+                    fm.forward_and_log_prob(xfar)[1], np64(lpf_far), tm * (1 + np.abs(np64(lpf_far))), xfar)
+            ctx.hist["c08:zero-density-points:-inf"] += int(np.isneginf(np64(lp_far)).sum())
     torch.manual_seed(s1)
     s_np, lps_np = fm.sample_and_log_prob(N=N)
     O.close("FlowModel.sample_and_log_prob:samples", "array-level samples != model", s_np, np64(s), tm * (1 + np.abs(np64(s))))
@@ -1132,6 +1153,8 @@ REALNVP_OPTS = [
     # whenever a density is reported (eval mode must reach every sub-module; seeded change C08-fA)
     {"distribution": "lars", "distribution_kwargs": {"net_kwargs": {"dropout_probability": 0.25}}, "_epochs": 10},
     {"batch_norm_within_layers": True, "dropout_probability": 0.2},
+    # a base distribution with bounded support (zero-density points exist: both tiers)
+    {"distribution": "uniform", "batch_norm_between_layers": False},
 ]
 REALNVP_MORE = [
     {"mask": [[1, -1], [-1, 1]], "linear_transform": None, "_blocks": 2},
@@ -1139,7 +1162,6 @@ REALNVP_MORE = [
     {"scale_activation": "sigmoid"},
     {"net": "mlp", "batch_norm_within_layers": True, "dropout_probability": 0.5},
     {"distribution": "normal"},
-    {"distribution": "uniform", "batch_norm_between_layers": False},
     {"linear_transform": "lu", "batch_norm_between_layers": False, "actnorm": True},
 ]
 MAF_OPTS = [
